@@ -7,6 +7,9 @@ require (
 	github.com/brocaar/lorawan v0.0.0
 )
 
-require github.com/jacobsa/crypto v0.0.0-20190317225127-9f44e2d11115 // indirect
+require (
+	github.com/jacobsa/crypto v0.0.0-20190317225127-9f44e2d11115 // indirect
+	github.com/pkg/errors v0.9.1 // indirect
+)
 
 replace github.com/brocaar/lorawan => /repo
